@@ -1289,6 +1289,8 @@ def replay(prop, path):
         if bad:
             print("VIOLATION property=%s replay=%s" % (prop, path))
             return 1
+        if v.get("spec_flag"):
+            print("KNOWN-FINDING: property=%s the case is reproduced exactly by the specification run with its named deviation (%s); that state breaks the property's clause" % (prop, v["spec_flag"]))
         return 0
     print(json.dumps({k: v[k] for k in v if k in ("what", "history", "reject", "seed", "profile")}, indent=1)[:6000])
     print("(trace case: re-run the recorder with the seed and profile above to regenerate the trace)")
